@@ -411,7 +411,10 @@ def _enclosing_fn(node):
 
 
 def _parse_pattern(src):
+    from .core import _normalise
+
     mod = ast.parse(src)
+    _normalise(mod)  # patterns are read in the same normal form as the code
     if len(mod.body) == 1 and isinstance(mod.body[0], ast.Expr):
         return mod.body[0].value
     return mod.body[0] if len(mod.body) == 1 else mod.body
